@@ -76,7 +76,7 @@ def patch_sac_npts(path, byteorder, new_npts):
 # SAF
 # --------------------------------------------------------------------------------------------------
 
-def write_saf(path, columns, ch_ids, fs, north_rot, eol="\n", ndat=None, ids_written=None, ncols=3, rich_header=True):
+def write_saf(path, columns, ch_ids, fs, north_rot, eol="\n", ndat=None, ids_written=None, ncols=3, rich_header=True, id_line_order=None):
     """columns: the three integer arrays in FILE COLUMN order; ch_ids: e.g. ("V","N","E") = CH0..CH2_ID.
 
     ndat overrides the NDAT header (corrupted variants); ids_written overrides the CHn_ID lines that are
@@ -96,6 +96,8 @@ def write_saf(path, columns, ch_ids, fs, north_rot, eol="\n", ndat=None, ids_wri
         lines.append(f"NORTH_ROT = {int(north_rot)}" if float(north_rot) == int(north_rot) and north_rot >= 0 else f"NORTH_ROT = {north_rot}")
     lines.append("UNITS = Counts")
     ids = list(enumerate(ch_ids)) if ids_written is None else ids_written
+    if id_line_order is not None:            # header keywords may come in any order: the CHn_ID lines need not ascend
+        ids = [ids[k] for k in id_line_order]
     for i, letter in ids:
         lines.append(f"CH{i}_ID = {letter}")
     lines.append("####--------------------------------")
